@@ -49,6 +49,15 @@ def gen_topk(items):
                         'else{sort_key=self.segment_sort_key(doc,score);};top_n_computer.append_doc(doc,sort_key);')
         if collect_pair not in bodies('compute_sort_key_and_collect'):
             raise Fail(f'{path}: compute_sort_key_and_collect of (Head, Tail) changed shape')
+        conv = bodies('convert_segment_sort_key')
+        want_conv = ['let(head_sort_key,tail_sort_key)=sort_key;(self.0.convert_segment_sort_key(head_sort_key),self.1.convert_segment_sort_key(tail_sort_key),)',
+                     '(self.map)(self.sort_key_computer.convert_segment_sort_key(segment_sort_key),)']
+        if conv[:2] != want_conv:
+            raise Fail(f'{path}: convert_segment_sort_key of (Head, Tail) / of the adapter changed shape (Proofs/LazyConvert.lean::convertPair mirrors them)')
+        flat = re.sub(r'\s+', '', text)
+        if ('map=|(sort_key1,(sort_key2,sort_key3))|(sort_key1,sort_key2,sort_key3);' not in flat
+                or 'map:|(sort_key1,(sort_key2,(sort_key3,sort_key4)))|{(sort_key1,sort_key2,sort_key3,sort_key4)}' not in flat):
+            raise Fail(f'{path}: the 3-/4-tuple adapters no longer re-associate the chain (a, (b, (c, d))) into (a, b, c, d)')
         comps = bodies('comparator')
         for n in (2, 3, 4):
             want = '(' + ','.join(f'self.{i}.comparator()' for i in range(n)) + ',)'
